@@ -292,12 +292,21 @@ where
                 // rebuild the state by replaying the operation sequence on a fresh wrapper
                 let mut handles: Vec<MultiRef<T>> = vec![MultiRef::new(v.clone())];
                 for op in seq {
-                    let (is_clone, idx) = (op & 1 == 0, (op >> 1) as usize);
-                    if is_clone {
-                        let h = handles[idx].clone();
-                        handles.push(h);
-                    } else {
-                        handles.remove(idx);
+                    let (kind, idx) = (op & 3, (op >> 2) as usize);
+                    match kind {
+                        0 => {
+                            let h = handles[idx].clone();
+                            handles.push(h);
+                        }
+                        1 => {
+                            handles.remove(idx);
+                        }
+                        _ => {
+                            // a wrapper that is the ONLY holder of another value takes this one over
+                            let mut h = MultiRef::new(v.clone());
+                            h.clone_from(&handles[idx]);
+                            handles.push(h);
+                        }
                     }
                 }
                 agg.evaluations += 1;
@@ -316,12 +325,15 @@ where
                     for i in 0..handles.len() {
                         if handles.len() < 3 {
                             let mut s2 = seq.clone();
-                            s2.push((i as u8) << 1);
+                            s2.push((i as u8) << 2);
                             next.push(s2);
+                            let mut s3 = seq.clone();
+                            s3.push(((i as u8) << 2) | 2);
+                            next.push(s3);
                         }
                         if handles.len() > 1 {
                             let mut s2 = seq.clone();
-                            s2.push(((i as u8) << 1) | 1);
+                            s2.push(((i as u8) << 2) | 1);
                             next.push(s2);
                         }
                     }
@@ -692,7 +704,7 @@ pub fn check(tier: &str) -> i32 {
     }
     rep.set("evaluations", json!(agg.evaluations));
     rep.set("distinct_nontrivial", json!(agg.distinct_texts.len()));
-    rep.set("rule", json!("complete product of the member alphabets of 6 probe types (strings {x, a<b&c>\"', é€, padded, abcd}, ints {MIN,-1,0,1,MAX}, Option absent/present, Vec of 0/1/3 items) x position {root, field, Option field, Vec field, flattened field, one wrapped value shared by three members} + at the root every handle state reachable by <= 3 clone/drop operations (observed through every live handle) + recursive chains of depth 0,1,3; distinct_nontrivial = number of distinct serialized documents of the bare values (each compared with its wrapped twin in 5 observations)"));
+    rep.set("rule", json!("complete product of the member alphabets of 6 probe types (strings {x, a<b&c>\"', é€, padded, abcd}, ints {MIN,-1,0,1,MAX}, Option absent/present, Vec of 0/1/3 items) x position {root, field, Option field, Vec field, flattened field, one wrapped value shared by three members} + at the root every handle state reachable by <= 3 operations from {clone, drop, clone_from into a wrapper that is the only holder of another value} (observed through every live handle) + recursive chains of depth 0,1,3; distinct_nontrivial = number of distinct serialized documents of the bare values (each compared with its wrapped twin in 5 observations)"));
     rep.set("exhaustive", json!(true));
     rep.set("handle_states_explored", json!(agg.handle_states));
     rep.set("restriction_verdicts", json!({"ok": agg.ok_verdicts, "err": agg.err_verdicts}));
